@@ -17,6 +17,7 @@ THEOREMS = [
     "kth_zero_padding", "approx_within_half_step", "approx_exact_on_grid", "approx_rows_rectangular", "approx_depths_nested",
     "approx_legacy_refuted", "approx_legacy_numeric", "infinite_bars_removed", "default_ends_cover",
     "approx_ctor_within_half_step", "vectorize_exact", "landscaper_is_approx", "death_vector_sorted",
+    "vectorize_exact_on_diagrams", "vectorize_exact_on_exact_landscape", "approx_landscape_stability", "approx_ctor_landscape_stability",  # cross-property glue (Proofs/LandscapeGlue*.v, LandscapeStabP.v)
 ]
 RULE = ("seeded generator; exact family = dyadic start/stop, n-1 in {1,2,4,8,16,32}, 1-6 bars with end points on "
         "multiples of step/4 (classes on_grid, half_tie, off_grid, mixed, narrow (no node gets a value), defaults "
